@@ -45,7 +45,7 @@ def rot(P):
     return quat_to_matrix(np.asarray(P, dtype=float))
 
 
-def cantilever(interp, mixed, constraints, degree, nel, frame, loads, rng):
+def cantilever(interp, mixed, constraints, degree, nel, frame, loads, rng, growth=1):
     """rod clamped at xi = 0 in the frame (R0, d): reference, clamp and dead loads are moved with the frame"""
     from cardillo import System
     from cardillo.rods import RectangularCrossSection, Simo1986, CrossSectionInertias
@@ -63,8 +63,8 @@ def cantilever(interp, mixed, constraints, degree, nel, frame, loads, rng):
     rod = Rod(cs, mat, nel, Q=Q, q0=Q.copy(), cross_section_inertias=CrossSectionInertias(1.0, cs), name="rod")
     clamp = RigidConnection(system.origin, rod, r_OJ0=d, A_IJ0=R0, xi2=0.0, name="clamp")
     F, M = loads
-    tip_f = Force(lambda t: t * (R0 @ F), rod, xi=1.0, name="tip_force")
-    tip_m = B_Moment(lambda t: t * M, rod, xi=1.0, name="tip_moment")
+    tip_f = Force(lambda t: t ** growth * (R0 @ F), rod, xi=1.0, name="tip_force")
+    tip_m = B_Moment(lambda t: t ** growth * M, rod, xi=1.0, name="tip_moment")
     system.add(rod, clamp, tip_f, tip_m)
     system.assemble(options=SolverOptions(compute_consistent_initial_conditions=False))
     return system, rod
@@ -89,15 +89,15 @@ def residual_record(system, solver, t, q, la_g, la_c, la_N, rid, tag, scale):
                 borderline=any(c == "borderline" for c in cls.values()))
 
 
-def run_static(solver, system, nsteps):
+def run_static(solver, system, nsteps, max_iter=50, span=(0.0, 1.0)):
     from cardillo.solver import Newton, Riks, SolverOptions
 
     with warnings.catch_warnings(record=True) as wl, _quiet():
         warnings.simplefilter("always")
         if solver == "Newton":
-            sol = Newton(system, n_load_steps=nsteps, verbose=False, options=SolverOptions(newton_atol=ATOL, newton_max_iter=50)).solve()
+            sol = Newton(system, n_load_steps=nsteps, verbose=False, options=SolverOptions(newton_atol=ATOL, newton_max_iter=max_iter)).solve()
         else:
-            sol = Riks(system, la_arc0=0.05, la_arc_span=np.array([0.0, 1.0]), max_load_steps=200, options=SolverOptions(newton_atol=ATOL, newton_max_iter=50)).solve()
+            sol = Riks(system, la_arc0=0.05, la_arc_span=np.array(span, dtype=float), max_load_steps=200, options=SolverOptions(newton_atol=ATOL, newton_max_iter=max_iter)).solve()
     return sol, [str(w.message) for w in wl]
 
 
@@ -208,6 +208,40 @@ def run(ctx):
             tip = np.asarray(sol_a.q[-1])[rod_a.qDOF][rod_a.nodalDOF_r[-1]] - np.asarray(sol_a.q[0])[rod_a.qDOF][rod_a.nodalDOF_r[-1]]
             if np.linalg.norm(tip) < 1e-3:
                 ctx.notes.append(f"{name}/{solver}: tip displacement {np.linalg.norm(tip):.2e} (load too small to be informative)")
+    # runs that stop early (a load that grows like t^3, few Newton iterations allowed): the rows they return are equilibria
+    nearly = 0
+    for amp, nst in ((20.0, 8), (5.0, 5), (40.0, 6)):
+        name = f"cantilever Quaternion[p=2,mixed=False], load {amp} t^3, at most 10 Newton iterations"
+        try:
+            F = np.array([0.0, 0.0, amp * 0.3]); M = np.zeros(3)
+            system, rod = cantilever("Quaternion", False, None, 2, nel, (np.eye(3), np.zeros(3)), (F, M), rng, growth=3)
+            sol, wl = run_static("Newton", system, nst, max_iter=10)
+        except Exception as ex:
+            notjudged[type(ex).__name__] = notjudged.get(type(ex).__name__, 0) + 1
+            continue
+        runs["Newton"] = runs.get("Newton", 0) + 1
+        if len(sol.t) < nst + 1:
+            nearly += 1
+        for i, (t, q, la_g, la_c, la_N) in enumerate(points_of(sol, system)):
+            rec = residual_record(system, "Newton", t, q, la_g, la_c, la_N, 0, dict(problem=name, frame="unmoved"), float(np.max(np.abs(F))))
+            rec["step"] = i
+            add(rec, dict(problem=name, solver="Newton", step=i, t=t, rows_returned=len(sol.t), load_steps=nst + 1, warnings=wl[:2], vals=rec["vals"]))
+    # the arc-length solver on a span that does not start at zero
+    for mixed in (False, True):
+        name = f"cantilever Quaternion[p=2,mixed={mixed}], Riks on the span [-0.5, 1]"
+        try:
+            F = np.array([0.0, 0.2, 0.1]); M = np.array([0.0, 0.0, 0.1])
+            system, rod = cantilever("Quaternion", mixed, None, 2, nel, (np.eye(3), np.zeros(3)), (F, M), rng)
+            sol, wl = run_static("Riks", system, nsteps, span=(-0.5, 1.0))
+        except Exception as ex:
+            notjudged[type(ex).__name__] = notjudged.get(type(ex).__name__, 0) + 1
+            ctx.notes.append(f"{name}: ended loudly with {type(ex).__name__}: {str(ex)[:120]} (not judged here)")
+            continue
+        runs["Riks"] = runs.get("Riks", 0) + 1
+        for i, (t, q, la_g, la_c, la_N) in enumerate(points_of(sol, system)):
+            rec = residual_record(system, "Riks", t, q, la_g, la_c, la_N, 0, dict(problem=name, frame="unmoved"), 0.3)
+            rec["step"] = i
+            add(rec, dict(problem=name, solver="Riks", step=i, t=t, vals=rec["vals"]))
     for name, system, scale in rigid_body_problems(rng):
         try:
             sol, _ = run_static("Newton", system, nsteps)
@@ -231,6 +265,7 @@ def run(ctx):
         w = wheres[rid]
         ctx.violation(f"{w['solver']}:{w['problem']}:{clause}", f"{clause}: {w}", w)
     nb = sum(1 for r in records if r["borderline"])
+    ctx.log(f"[C23] {nearly} of 3 hard Newton runs stopped early (their rows are judged)")
     ctx.log(f"[C23] static runs per solver {runs}; {len(records)} returned points / frame pairs judged by TLC, {len(bad)} rejected, {nb} borderline; "
             f"runs that ended loudly (not judged): {notjudged}")
     nontrivial = {(r["solver"], repr(sorted(r["tag"].items())), r["step"]) for r in records if r["step"] > 0}
